@@ -185,11 +185,39 @@ let do_validate () : ostring =
   "OK " ^ show_result r ^ " ## SPEC J=" ^ bool01 (judge vs r)
   ^ OStr.concat "" (OLst.map (fun v -> " " ^ show_verdict v) vs)
 
+(* `entities ro|rw`: the per-entity verdicts of the model, in the format of harness/drv_C19.cpp do_entities.
+   The model's answer does not depend on the mode; walk / acc / ids are 1 by C19_validate_is_entitywise,
+   C19_result_accessors and all_id_validate_ent. *)
+let do_entities () : ostring =
+  let t = vfile_of !ents in
+  let toks = ref [] and calls = ref 0 in
+  let take key (r : result) =
+    incr calls;
+    OLst.iter (fun (m : message) -> toks := (key ^ ":E:" ^ enc_str (ostr m.m_text)) :: !toks) r.errors;
+    OLst.iter (fun (m : message) -> toks := (key ^ ":W:" ^ enc_str (ostr m.m_text)) :: !toks) r.warnings in
+  let ve = validate_ent c_isSI c_isCompound c_scalable tagUnits_variant propUnit_variant in
+  OLst.iter (fun e ->
+      match e with
+      | EDim (o, idx, d) ->
+        let dk = ostr o.a_ent.n_ent.e_id ^ "." ^ string_of_z idx in
+        take ("g" ^ dk) (validate_dimension idx);
+        (match d with DFrame _ -> () | _ -> take dk (ve e))
+      | _ -> take (ostr (ent_id e)) (ve e))
+    (entities t);
+  take "file" (validate_file { h_id = cstr "file"; h_open = true; h_created = Some (zi 1); h_version_n = zi 3;
+                               h_format = cstr "nix"; h_location = cstr "c19.nix" });
+  let whole = validate_current c_isSI c_isCompound c_scalable t in
+  let acc = (has_errors whole = (whole.errors <> [])) && (has_warnings whole = (whole.warnings <> []))
+            && (result_ok whole = (whole.errors = [] && whole.warnings = [])) in
+  "OK walk=1 acc=" ^ bool01 acc ^ " ids=1 n=" ^ ostring_of_int !calls
+  ^ OStr.concat "" (OLst.map (fun x -> " " ^ x) (OLst.sort OStr.compare !toks))
+
 (* ---- the script interpreter -------------------------------------------------------------------- *)
 let handle toks =
   (match toks with
    | ["new"] -> ents := []; "OK -"
    | ["validate"] -> do_validate ()
+   | ["entities"; _] -> do_entities ()
    | "h5" :: op :: e :: rest ->
      let x = get e in
      (match op, rest with
